@@ -186,4 +186,146 @@ def check(case, rec):
         rec.nontrivial()
 
 
-SUBS = [Sub("aggs", check, strategy=cases, examples={"quick": 3000, "thorough": 150000})]
+@st.composite
+def index_cases(draw, tier):
+    from ..machine import dense_strategy
+
+    pal = draw(st.sampled_from([[0, 1, 2, 3], [0, 1, 2, 3, 4, 5], [1, 0, 2], [0, 1, 255, 256], [2, 0, 70000, 1]]))
+    tail = draw(st.sampled_from([(), (1,), (2,), (3,), (4,), (2, 2), (3, 2)]))
+    n = draw(st.integers(0, 10))
+    shape = (n,) + tuple(tail)
+    case = {"shape": list(shape), "dense": draw(dense_strategy(shape, pal)),
+            "common": draw(st.sampled_from(pal + [9])), "pal": pal}
+    case["mask"] = draw(st.lists(st.booleans(), min_size=n, max_size=n))
+    case["mapping"] = [[k, draw(st.sampled_from(pal + [9, 7]))] for k in sorted(set(pal + [case["common"]]))]
+    case["precedence"] = draw(st.lists(st.sampled_from(pal + [9, 7]), unique=True, min_size=1, max_size=5))
+    case["other_common"] = draw(st.sampled_from(pal + [9]))
+    case["new_common"] = draw(st.one_of(st.none(), st.sampled_from(pal)))
+    case["orders"] = [draw(st.one_of(st.none(), st.integers(0, e - 1),
+                                     st.lists(st.integers(0, e - 1), unique=True, min_size=1, max_size=e)))
+                      for e in tail]
+    case["flags"] = [draw(st.booleans()) for _ in range(4)]
+    return case
+
+
+def check_index_methods(case, rec):
+    import numpy
+
+    from catii import ccube, iindex, xcube
+    from catii.iindexes import column_stack
+
+    from ..machine import snapshot_index
+
+    dense = numpy.array(case["dense"], dtype=numpy.int64).reshape(case["shape"])
+    ix = Q.build_index(dense, case["common"])
+    other = Q.build_index(dense[::-1].copy(), case["other_common"])
+    snap0, snap_other = snapshot_index(ix), snapshot_index(other)
+    n = dense.shape[0]
+
+    def unchanged(what, **args):
+        if snapshot_index(ix) != snap0:
+            raise Violation("%s modified its receiver" % what, sig="%s modified the index" % what.split("(")[0])
+        if snapshot_index(other) != snap_other:
+            raise Violation("%s modified another index passed to it" % what,
+                            sig="%s modified an argument index" % what.split("(")[0])
+        for name, (obj, snap) in args.items():
+            if snapshot(obj) != snap:
+                raise Violation("%s modified its argument %r" % (what, name),
+                                sig="%s modified argument %s" % (what.split("(")[0], name))
+
+    def arg(obj):
+        return (obj, snapshot(obj))
+
+    f0, f1, f2, f3 = case["flags"]
+    with warnings.catch_warnings():
+        warnings.simplefilter("ignore")
+        if ix.ndim <= 2:
+            mapping = {k: v for k, v in case["mapping"]}
+            if f3:
+                mapping.pop(ix.common, None)  # the common value may be absent from a to_array mapping
+            with libcall("to_array"):
+                ix.to_array()
+                ix.to_array(dtype=numpy.int64)
+                ix.to_array(mapping=mapping)
+            unchanged("to_array(mapping)", mapping=arg(mapping))
+            mask = numpy.array(case["mask"], dtype=bool)
+            a_mask = arg(mask)
+            with libcall("filtered"):
+                ix.filtered(mask, int(mask.sum()))
+            unchanged("filtered(mask)", mask=a_mask)
+            m2 = dict(mapping)
+            a_m2 = arg(m2)
+            with libcall("reindexed"):
+                ix.reindexed(m2, copy=f0, shift=f1, assume_unique=f2)
+                ix.reindexed()
+            unchanged("reindexed(mapping)", mapping=a_m2)
+            with libcall("common_rowids / get / items / to_dict"):
+                cols = [()] if ix.ndim == 1 else [(c,) for c in range(ix.shape[1])]
+                for col in cols:
+                    ix.common_rowids(*col)
+                    ix.get((ix.common,) + col, force=True)
+                list(ix.items(force=True))
+                ix.to_dict(force=True)
+            unchanged("get/items/to_dict(force=True)")
+            lst = [ix, other] if f3 else [other, ix, ix]
+            a_lst = list(lst)
+            with libcall("column_stack"):
+                column_stack(lst, new_common=case["new_common"], copy=f0)
+            if lst != a_lst:
+                raise Violation("column_stack modified the list passed to it", sig="column_stack modified its list")
+            unchanged("column_stack")
+            vals = dense.copy()
+            counts = {int(v): int(c) for v, c in zip(*numpy.unique(vals, return_counts=True))}
+            fm = {k: v for k, v in case["mapping"]}
+            for v in counts:
+                fm.setdefault(v, v)
+            a_vals, a_counts, a_fm = arg(vals), arg(counts), arg(fm)
+            if vals.size:
+                with libcall("from_array"):
+                    iindex.from_array(vals, counts=counts, common=case["common"], mapping=fm)
+                unchanged("from_array(values, counts, mapping)", values=a_vals, counts=a_counts, mapping=a_fm)
+        if ix.ndim == 2 and ix.shape[1] >= 1:
+            prec = list(case["precedence"])
+            cm = {k: v for k, v in case["mapping"]}
+            a_prec, a_cm = arg(prec), arg(cm)
+            with libcall("collapsed"):
+                ix.collapsed(prec)
+                ix.collapsed(prec, mapping=cm)
+            unchanged("collapsed(precedence, mapping)", precedence=a_prec, mapping=a_cm)
+        if ix.ndim >= 2:
+            orders = [o if not isinstance(o, list) else list(o) for o in case["orders"]]
+            a_orders = arg(orders)
+            with libcall("sliced"):
+                ix.sliced(*orders)
+            unchanged("sliced(orders)", orders=a_orders)
+        with libcall("copy / slices1d"):
+            ix.copy()
+            list(ix.slices1d())
+        unchanged("copy / slices1d")
+        if all(0 <= v <= 300 for v in case["pal"] + [case["common"], case["other_common"]]):
+            with libcall("ccube construction / walk / product / count"):
+                cube = ccube([ix, other])
+                cube.walk(lambda c, r: None)
+                list(cube.product())
+                cube.count()
+            unchanged("ccube([...]).walk/product/count")
+            arrs = [dense.copy(), dense[::-1].copy()]
+            a_arrs = arg(arrs)
+            if dense.size:
+                with libcall("xcube construction / product / count"):
+                    xc = xcube(arrs)
+                    list(xc.product)
+                    xc.count()
+                if snapshot(arrs) != a_arrs[1]:
+                    raise Violation("xcube modified the dimension arrays passed to it",
+                                    sig="xcube modified its dimension arrays")
+    rec.note("ndim=%d" % ix.ndim)
+    if len(ix) >= 2:
+        rec.nontrivial()
+
+
+SUBS = [
+    Sub("aggs", check, strategy=cases, examples={"quick": 3000, "thorough": 150000}),
+    Sub("index_methods", check_index_methods, strategy=index_cases,
+        examples={"quick": 3000, "thorough": 100000}),
+]
